@@ -227,6 +227,28 @@ func checkC09(P *Program, r *Result, tier string) {
 				r.add("NO-WRITE-CALLER", shortName(fn), "copy", "the reader writes into its buffer only when it owns it (!bufReadOnly)", P.pos(instrPos(cp)), flagGuard(fn, cp, "bufReadOnly", false), "")
 			}
 		}
+		// ... and the same moved by hand: a store into an element of the current buffer
+		for _, b := range fn.Blocks {
+			for _, in := range b.Instrs {
+				st, ok := in.(*ssa.Store)
+				if !ok {
+					continue
+				}
+				ia, ok := st.Addr.(*ssa.IndexAddr)
+				if !ok || !isByteSlice(ia.X.Type()) {
+					continue
+				}
+				rooted := false
+				for _, rt := range rootsOf(ia.X) {
+					if rt.Kind == "cell" && strings.HasSuffix(rt.Name, ".buf") {
+						rooted = true
+					}
+				}
+				if rooted {
+					r.add("NO-WRITE-CALLER", shortName(fn), "copy", "the reader writes into its buffer only when it owns it (!bufReadOnly)", P.pos(instrPos(st)), flagGuard(fn, st, "bufReadOnly", false), "")
+				}
+			}
+		}
 	}
 	// caller slice ⇒ bufReadOnly (constructor pairing) and reset call sites
 	if fn := P.Method(relBufiox, "DefaultReader", "reset"); r.require("bufiox.DefaultReader.reset", fn != nil) {
